@@ -148,7 +148,15 @@ func checkC19(c *Ctx, w *World) {
 				by, isB := staticCallNamed(stripConv(oneOrigin(app.Call.Args[0])), "proto.(*Buffer).Bytes")
 				// both encode steps ran before the prefix bytes are taken, on this way out
 				ranEF, _ := cs.Implies(vr.Cond, and(cs.Reach(ev), cs.Reach(ef)))
-				good = isB && by.Call.Args[0] == ssa.Value(nb) && ranEF && mayPrecede(ef, by) && !mayPrecede(by, ef) && payload(app.Call.Args[1])
+				isBuf := isB
+				if isB {
+					for _, rv := range cs.ResolveUnder(by.Call.Args[0], vr.Cond) {
+						if rv != ssa.Value(nb) {
+							isBuf = false
+						}
+					}
+				}
+				good = isBuf && ranEF && mayPrecede(ef, by) && !mayPrecede(by, ef) && payload(app.Call.Args[1])
 			}
 			c.check(good && knownNil(vr.Vals[1], vr.Cond), "C19.frame", construct+": success", p.ipos(vr.Ret), "returns append(prefix bytes, payload...) — the 6-byte field followed by the unchanged wrapped encoding — with a nil error", "the success result is not prefix‖payload with a nil error")
 		case encFail:
